@@ -194,13 +194,19 @@ pub(super) fn max_overlap(ivs: &[(i64, i64)]) -> (usize, usize) {
     pts.dedup();
     let mut closed = 0;
     for p in &pts {
-        let c = ivs.iter().filter(|(lo, hi)| 2 * lo <= *p && *p <= 2 * hi).count();
+        let c = ivs
+            .iter()
+            .filter(|(lo, hi)| 2 * lo <= *p && *p <= 2 * hi)
+            .count();
         closed = closed.max(c);
     }
     let mut open = 0;
     for w in pts.windows(2) {
         let mid = (w[0] + w[1]) / 2; // doubled coordinates: always an integer strictly between
-        let c = ivs.iter().filter(|(lo, hi)| 2 * lo < mid && mid < 2 * hi).count();
+        let c = ivs
+            .iter()
+            .filter(|(lo, hi)| 2 * lo < mid && mid < 2 * hi)
+            .count();
         open = open.max(c);
     }
     (closed, open)
@@ -334,14 +340,44 @@ fn d_syms() -> Vec<Sym> {
     let mut v = Vec::new();
     for off in [0, 16, 32, 48] {
         for rad in [8, 16, 24] {
-            v.push(Sym { off, rad, kind: Kind::Normal, usable: true });
+            v.push(Sym {
+                off,
+                rad,
+                kind: Kind::Normal,
+                usable: true,
+            });
         }
     }
-    v.push(Sym { off: 16, rad: 32, kind: Kind::Normal, usable: true }); // exactly at the limit
-    v.push(Sym { off: 16, rad: 33, kind: Kind::Normal, usable: true }); // too uncertain
-    v.push(Sym { off: 16, rad: 8, kind: Kind::Unsync, usable: true });
-    v.push(Sym { off: 16, rad: 8, kind: Kind::Periodic, usable: true });
-    v.push(Sym { off: 48, rad: 8, kind: Kind::Periodic, usable: true });
+    v.push(Sym {
+        off: 16,
+        rad: 32,
+        kind: Kind::Normal,
+        usable: true,
+    }); // exactly at the limit
+    v.push(Sym {
+        off: 16,
+        rad: 33,
+        kind: Kind::Normal,
+        usable: true,
+    }); // too uncertain
+    v.push(Sym {
+        off: 16,
+        rad: 8,
+        kind: Kind::Unsync,
+        usable: true,
+    });
+    v.push(Sym {
+        off: 16,
+        rad: 8,
+        kind: Kind::Periodic,
+        usable: true,
+    });
+    v.push(Sym {
+        off: 48,
+        rad: 8,
+        kind: Kind::Periodic,
+        usable: true,
+    });
     v
 }
 
@@ -375,7 +411,11 @@ fn d_snap(id: u64, s: &Sym, real: usize) -> Snap {
         off,
         unc,
         delay,
-        if s.kind == Kind::Periodic { Some(1.0) } else { None },
+        if s.kind == Kind::Periodic {
+            Some(1.0)
+        } else {
+            None
+        },
         if s.kind == Kind::Unsync {
             NtpLeapIndicator::Unsynchronized
         } else {
@@ -437,16 +477,31 @@ impl Stats {
         ctx.add("evaluations", self.evals);
         ctx.add(&format!("{p}_cases"), self.evals);
         ctx.add(&format!("{p}_acted"), self.acted);
-        ctx.add(&format!("{p}_idle_no_eligible_source"), self.idle_no_eligible);
+        ctx.add(
+            &format!("{p}_idle_no_eligible_source"),
+            self.idle_no_eligible,
+        );
         ctx.add(&format!("{p}_idle_below_minimum"), self.idle_min);
         ctx.add(&format!("{p}_idle_no_strict_majority"), self.idle_majority);
         ctx.add(&format!("{p}_exact_tie_cases"), self.ties);
         ctx.add(&format!("{p}_decisive_tie_counted_closed"), self.tie_acted);
         ctx.add(&format!("{p}_decisive_tie_counted_open"), self.tie_idle);
-        ctx.add(&format!("{p}_periodic_source_in_selection"), self.periodic_selected);
-        ctx.add(&format!("{p}_touching_neighbours_both_selected"), self.non_clique_on_tie);
-        ctx.add(&format!("{p}_converse_consensus_and_acted"), self.converse_ok);
-        ctx.add(&format!("{p}_converse_consensus_but_idle"), self.converse_miss);
+        ctx.add(
+            &format!("{p}_periodic_source_in_selection"),
+            self.periodic_selected,
+        );
+        ctx.add(
+            &format!("{p}_touching_neighbours_both_selected"),
+            self.non_clique_on_tie,
+        );
+        ctx.add(
+            &format!("{p}_converse_consensus_and_acted"),
+            self.converse_ok,
+        );
+        ctx.add(
+            &format!("{p}_converse_consensus_but_idle"),
+            self.converse_miss,
+        );
         if self.step + self.slew > 0 {
             ctx.add(&format!("{p}_step_clock"), self.step);
             ctx.add(&format!("{p}_slew_or_freq_only"), self.slew);
@@ -455,10 +510,20 @@ impl Stats {
     }
 }
 
-fn d_case(word: &[usize], syms: &[Sym], real: usize, min: usize, nc: &mut u64) -> (Verdict, Result<u32, String>, Vec<(&'static str, String)>) {
+fn d_case(
+    word: &[usize],
+    syms: &[Sym],
+    real: usize,
+    min: usize,
+    nc: &mut u64,
+) -> (Verdict, Result<u32, String>, Vec<(&'static str, String)>) {
     let vec: Vec<Sym> = word.iter().map(|&i| syms[i]).collect();
     let v = reference(&vec, D_LIMIT, min);
-    let snaps: Vec<Snap> = vec.iter().enumerate().map(|(i, s)| d_snap(i as u64, s, real)).collect();
+    let snaps: Vec<Snap> = vec
+        .iter()
+        .enumerate()
+        .map(|(i, s)| d_snap(i as u64, s, real))
+        .collect();
     let algo = d_algo(real);
     let got = common::catch(|| algo.verif_gb_select_mask(min, &snaps));
     let viol = match &got {
@@ -471,7 +536,10 @@ fn d_case(word: &[usize], syms: &[Sym], real: usize, min: usize, nc: &mut u64) -
 fn d_trace(word: &[usize], real: usize, min: usize) -> String {
     format!(
         "d;real={real};min={min};syms={}",
-        word.iter().map(|x| x.to_string()).collect::<Vec<_>>().join(",")
+        word.iter()
+            .map(|x| x.to_string())
+            .collect::<Vec<_>>()
+            .join(",")
     )
 }
 
@@ -494,14 +562,22 @@ fn run_direct(ctx: &Ctx, n: usize, reals: &[usize], mins: &[usize]) {
                     st.calls += 1;
                     let mask = got.unwrap_or(0);
                     st.note(&v, min, mask != 0);
-                    if word.iter().enumerate().any(|(i, &s)| mask & (1 << i) != 0 && syms[s].kind == Kind::Periodic) {
+                    if word
+                        .iter()
+                        .enumerate()
+                        .any(|(i, &s)| mask & (1 << i) != 0 && syms[s].kind == Kind::Periodic)
+                    {
                         st.periodic_selected += 1;
                     }
                     if v.eligible >= 2 {
                         distinct.push(common::hash_of(&("d", &sorted, real, min)));
                     }
                     for (class, what) in viol {
-                        ctx.violation(class, format!("direct n={n}: {what}"), d_trace(&word, real, min));
+                        ctx.violation(
+                            class,
+                            format!("direct n={n}: {what}"),
+                            d_trace(&word, real, min),
+                        );
                     }
                     if x % 100_003 == 17 && real == 0 && min == 2 {
                         ctx.sample(format!(
@@ -530,12 +606,32 @@ fn e_syms() -> Vec<Sym> {
     let mut kinds = Vec::new();
     for off in [10, 12, 14] {
         for rad in [1, 2] {
-            kinds.push(Sym { off, rad, kind: Kind::Normal, usable: true });
+            kinds.push(Sym {
+                off,
+                rad,
+                kind: Kind::Normal,
+                usable: true,
+            });
         }
     }
-    kinds.push(Sym { off: 12, rad: 5, kind: Kind::Normal, usable: true }); // too uncertain
-    kinds.push(Sym { off: 12, rad: 1, kind: Kind::Unsync, usable: true });
-    kinds.push(Sym { off: 12, rad: 1, kind: Kind::Periodic, usable: true }); // one-way: radius is 1 s by construction
+    kinds.push(Sym {
+        off: 12,
+        rad: 5,
+        kind: Kind::Normal,
+        usable: true,
+    }); // too uncertain
+    kinds.push(Sym {
+        off: 12,
+        rad: 1,
+        kind: Kind::Unsync,
+        usable: true,
+    });
+    kinds.push(Sym {
+        off: 12,
+        rad: 1,
+        kind: Kind::Periodic,
+        usable: true,
+    }); // one-way: radius is 1 s by construction
     let mut v = Vec::new();
     for k in kinds {
         v.push(Sym { usable: false, ..k });
@@ -551,7 +647,11 @@ fn e_algo(cfg: usize) -> AlgorithmConfig {
         maximum_source_uncertainty: E_LIMIT as f64,
         range_statistical_weight: 0.0,
         range_delay_weight: 1.0,
-        step_threshold: if cfg == 1 { 100.0 } else { AlgorithmConfig::default().step_threshold },
+        step_threshold: if cfg == 1 {
+            100.0
+        } else {
+            AlgorithmConfig::default().step_threshold
+        },
         ..AlgorithmConfig::default()
     }
 }
@@ -630,12 +730,21 @@ fn e_run(vec: &[Sym], cfg: usize, min: usize, trigger: usize) -> EObs {
     }
 }
 
-fn e_judge(vec: &[Sym], min: usize, v: &Verdict, o: &EObs, nc: &mut u64) -> Vec<(&'static str, String)> {
+fn e_judge(
+    vec: &[Sym],
+    min: usize,
+    v: &Verdict,
+    o: &EObs,
+    nc: &mut u64,
+) -> Vec<(&'static str, String)> {
     let mut out = Vec::new();
     if o.early_steer > 0 || o.early_used {
         out.push((
             "C03:ineligible-used",
-            format!("clock touched ({} calls) while every source was flagged unusable", o.early_steer),
+            format!(
+                "clock touched ({} calls) while every source was flagged unusable",
+                o.early_steer
+            ),
         ));
     }
     let steer = steering_calls(&o.log);
@@ -646,7 +755,10 @@ fn e_judge(vec: &[Sym], min: usize, v: &Verdict, o: &EObs, nc: &mut u64) -> Vec<
     }
     let mut j = judge(vec, E_LIMIT, min, v, acted, mask, nc);
     if steer > 0 && o.used.is_none() {
-        j.push(("C03:steer-without-consensus", "clock steered without a reported set of used sources".to_string()));
+        j.push((
+            "C03:steer-without-consensus",
+            "clock steered without a reported set of used sources".to_string(),
+        ));
     }
     out.extend(j);
     out
@@ -655,7 +767,10 @@ fn e_judge(vec: &[Sym], min: usize, v: &Verdict, o: &EObs, nc: &mut u64) -> Vec<
 fn e_trace(word: &[usize], cfg: usize, min: usize, trigger: usize) -> String {
     format!(
         "e;cfg={cfg};min={min};trig={trigger};syms={}",
-        word.iter().map(|x| x.to_string()).collect::<Vec<_>>().join(",")
+        word.iter()
+            .map(|x| x.to_string())
+            .collect::<Vec<_>>()
+            .join(",")
     )
 }
 
@@ -695,13 +810,27 @@ fn run_e2e(ctx: &Ctx, n: usize, mins: &[usize]) {
                                 } else if steer > 0 {
                                     st.slew += 1;
                                 }
-                                if o.used.iter().flatten().any(|id| vec[*id as usize].kind == Kind::Periodic) {
+                                if o.used
+                                    .iter()
+                                    .flatten()
+                                    .any(|id| vec[*id as usize].kind == Kind::Periodic)
+                                {
                                     st.periodic_selected += 1;
                                 }
-                                for (class, what) in e_judge(&vec, min, &v, &o, &mut st.non_clique_on_tie) {
-                                    ctx.violation(class, format!("end-to-end n={n}: {what}"), e_trace(&word, cfg, min, trigger));
+                                for (class, what) in
+                                    e_judge(&vec, min, &v, &o, &mut st.non_clique_on_tie)
+                                {
+                                    ctx.violation(
+                                        class,
+                                        format!("end-to-end n={n}: {what}"),
+                                        e_trace(&word, cfg, min, trigger),
+                                    );
                                 }
-                                if x % 20_011 == 5 && min == 1 && trigger == 0 && cfg == (x as usize / 20_011) % 2 {
+                                if x % 20_011 == 5
+                                    && min == 1
+                                    && trigger == 0
+                                    && cfg == (x as usize / 20_011) % 2
+                                {
                                     ctx.sample(format!(
                                         "e2e {} -> used {:?}, clock calls {:?} (eligible {}, agreeing closed/open {}/{})",
                                         e_trace(&word, cfg, min, trigger), o.used, o.log, v.eligible, v.m_closed, v.m_open
@@ -728,7 +857,9 @@ fn run_e2e(ctx: &Ctx, n: usize, mins: &[usize]) {
 // ---------------------------------------------------------------------------------
 
 fn field<'a>(parts: &'a [&'a str], key: &str) -> Option<&'a str> {
-    parts.iter().find_map(|p| p.strip_prefix(key).and_then(|r| r.strip_prefix('=')))
+    parts
+        .iter()
+        .find_map(|p| p.strip_prefix(key).and_then(|r| r.strip_prefix('=')))
 }
 
 fn replay(ctx: &Ctx, trace: &str) -> String {
@@ -738,9 +869,13 @@ fn replay(ctx: &Ctx, trace: &str) -> String {
         .split(',')
         .filter_map(|s| s.parse().ok())
         .collect();
-    let min: usize = field(&parts, "min").and_then(|s| s.parse().ok()).unwrap_or(1);
+    let min: usize = field(&parts, "min")
+        .and_then(|s| s.parse().ok())
+        .unwrap_or(1);
     if parts[0] == "d" {
-        let real: usize = field(&parts, "real").and_then(|s| s.parse().ok()).unwrap_or(0);
+        let real: usize = field(&parts, "real")
+            .and_then(|s| s.parse().ok())
+            .unwrap_or(0);
         let syms = d_syms();
         if word.iter().any(|&i| i >= syms.len()) || word.len() > 16 {
             return "bad trace".to_string();
@@ -757,15 +892,24 @@ fn replay(ctx: &Ctx, trace: &str) -> String {
             viol.iter().map(|x| x.0).collect::<Vec<_>>()
         )
     } else {
-        let trigger: usize = field(&parts, "trig").and_then(|s| s.parse().ok()).unwrap_or(0);
-        let cfg: usize = field(&parts, "cfg").and_then(|s| s.parse().ok()).unwrap_or(0);
+        let trigger: usize = field(&parts, "trig")
+            .and_then(|s| s.parse().ok())
+            .unwrap_or(0);
+        let cfg: usize = field(&parts, "cfg")
+            .and_then(|s| s.parse().ok())
+            .unwrap_or(0);
         let syms = e_syms();
-        if word.is_empty() || word.iter().any(|&i| i >= syms.len()) || trigger >= word.len() || word.len() > 16 {
+        if word.is_empty()
+            || word.iter().any(|&i| i >= syms.len())
+            || trigger >= word.len()
+            || word.len() > 16
+        {
             return "bad trace".to_string();
         }
         let vec: Vec<Sym> = word.iter().map(|&i| syms[i]).collect();
         let v = reference(&vec, E_LIMIT, min);
-        let got = super::block_on_paused(async { common::catch(|| e_run(&vec, cfg, min, trigger)) });
+        let got =
+            super::block_on_paused(async { common::catch(|| e_run(&vec, cfg, min, trigger)) });
         match got {
             Err(e) => {
                 ctx.violation("C03:controller-panic", e.clone(), trace);
@@ -823,7 +967,9 @@ fn check() {
     }
     ctx.set("direct_max_sources_all_realisations", d_full as u64);
     if ctx.over_budget() {
-        ctx.cap_hit(&format!("direct n={d_top} not started; n<={d_full} complete"));
+        ctx.cap_hit(&format!(
+            "direct n={d_top} not started; n<={d_full} complete"
+        ));
     } else {
         run_direct(&ctx, d_top, &[0], &mins4);
         ctx.set("direct_max_sources", d_top as u64);
@@ -832,7 +978,9 @@ fn check() {
     let mut e_done = 0;
     for n in 1..=e_top {
         if ctx.over_budget() {
-            ctx.cap_hit(&format!("end-to-end n={n} not started; n<={e_done} complete"));
+            ctx.cap_hit(&format!(
+                "end-to-end n={n} not started; n<={e_done} complete"
+            ));
             break;
         }
         run_e2e(&ctx, n, &[1, 2, 3]);
